@@ -54,6 +54,16 @@ CHECKS['C18'] = dict(
    text='All byte strings of length 0..2 (+ all 2^24 three-byte strings in thorough, structured longer ones) x 23 presentations (aligned, every bit offset of a junk buffer, vectors, strings) x 4 codecs round trip; the RFC/Z85 standard text must decode; every text of <= 5/6 characters over an alphabet of valid and invalid characters x 4 decoders must give nil or a bit-string, a foreign character must give nil; acceptance equals that of >bitstr for a 48-value mixed-type alphabet.',
    note='Encoder text is not compared with a golden rendering (only decode(standard text) and round trip); inputs longer than 40 bytes not covered.',
    ref='DESIGN.md §4 C18')
+CHECKS['C12'] = dict(
+   technique='explicit-state BFS over map operation sequences keyed by the canonical association-list model, exhaustive map-literal / vector / string / sort enumeration on the real interpreter',
+   text='BFS over insert/remove sequences to depth 4 (quick) / 5 (thorough) over an 18-key mixed-type alphabet with get of every key, foreach, equal? and old-handle immutability checked in every state; all map literals of <= 3/4 pairs; every vector/string of length 0..4/5 built by 5 recipes x push nth get slice reverse length collect unbox concat join over a 15-value index alphabet including isize/i128 extremes; sort on homogeneous lists.',
+   note='Association list / Vec under the language equality is the model. The cross-type key collision is an open known finding (see known_findings.txt).',
+   ref='DESIGN.md §4 C12')
+CHECKS['C13'] = dict(
+   technique='exhaustive differential sweep: every dictionary word x argument tuples x tagging patterns, tagged run vs untagged run on the real interpreter; tag words against a map-attached-to-value model',
+   text='179 run-time words + 10 templates x all tuples of arity 0..3 over an 11 (quick) / 15 (thorough) value alphabet x every non-empty subset of tagged positions x 4 tag maps (empty, {k:v}, tags-on-tags, #fmt) x nested-tag variants: same result class, equal results, same output, provenance rule for tags in results; tag words checked by sequences of <= 2/3 operations against a model.',
+   note='Stack residue after a failing word is not compared; #fmt is withheld from the words that honour it by design; values outside the alphabet and arity > 3 not covered.',
+   ref='DESIGN.md §4 C13')
 
 NOT_BUILT = {}
 
